@@ -484,3 +484,57 @@ func keysOf(m map[string]string) []string {
 	sort.Strings(ks)
 	return ks
 }
+
+// MassPurgeResult is what a purge interrupted by a kill left behind.
+type MassPurgeResult struct {
+	Tombstones int    `json:"tombstonesBefore"`
+	Point      string `json:"killPoint"`
+	Nth        int    `json:"nth"`
+	Acked      bool   `json:"purgeAcknowledged"`
+	Intent     bool   `json:"purgeStarted"`
+	Left       int    `json:"tombstonesAfterReopen"`
+	Live       int    `json:"liveAfterReopen"`
+	Problem    string `json:"problem,omitempty"`
+	Incon      string `json:"inconclusive,omitempty"`
+}
+
+// MassPurge: a bucket with `tombs` tombstones is purged; the process is killed at the nth hit of a transaction hook
+// inside that one call; a fresh process reopens the bucket and counts. PurgeTombstones is one call: after the
+// reopen either every tombstone is gone or every one is still there (and none may be left once it was acknowledged).
+func MassPurge(tmp string, tombs int, point string, nth int, mode int) (res MassPurgeResult) {
+	res.Tombstones, res.Point, res.Nth = tombs, point, nth
+	exe, _ := os.Executable()
+	name := fmt.Sprintf("mp%d_%d", os.Getpid(), runSerial.Add(1))
+	dir := filepath.Join(tmp, name+"_dir")
+	_ = os.MkdirAll(dir, 0755)
+	defer os.RemoveAll(dir)
+	wj, _ := json.Marshal(WriterArgs{Dir: dir, Name: name, Ops: tombs, Point: point, Nth: nth, Profile: "masspurge"})
+	wout, _ := exec.Command(exe, "crashwriter", string(wj)).Output()
+	res.Intent = strings.Contains(string(wout), "PURGE-INTENT")
+	res.Acked = strings.Contains(string(wout), "PURGE-ACK")
+	if !res.Intent {
+		res.Incon = "the writer did not reach the purge: " + firstLine(string(wout))
+		return
+	}
+	rj, _ := json.Marshal(ReaderArgs{Dir: dir, Name: name, Mode: mode, Colls: 2, CountAll: true})
+	rout, _ := exec.Command(exe, "crashreader", string(rj)).Output()
+	var ro ReaderOut
+	if err := json.Unmarshal(rout, &ro); err != nil {
+		res.Problem = "reader|the reopening process produced no result: " + firstLine(string(rout))
+		return
+	}
+	if ro.Err != "" || ro.CountErr != "" {
+		res.Problem = "reopen|the bucket cannot be reopened / read after the kill: " + ro.Err + ro.CountErr
+		return
+	}
+	res.Left, res.Live = ro.Tombstones, ro.LiveDocs
+	switch {
+	case res.Live != 20:
+		res.Problem = fmt.Sprintf("purge-collateral|%d of the 20 live documents are readable after PurgeTombstones was interrupted", res.Live)
+	case res.Acked && res.Left != 0:
+		res.Problem = fmt.Sprintf("purge-lost|PurgeTombstones was acknowledged, yet %d of %d tombstones are back after the reopen", res.Left, tombs)
+	case res.Left != 0 && res.Left != tombs:
+		res.Problem = fmt.Sprintf("purge-partial|PurgeTombstones was interrupted by a kill (hit %d of %s inside the call): after the reopen %d of %d tombstones are left - the call was applied in part", nth, point, res.Left, tombs)
+	}
+	return
+}
